@@ -51,7 +51,7 @@ def run_mode(ctx, replay, mode, assumptions, model_fn=None, extra_traces_fn=None
     if extra_traces_fn:
         t2, s2 = extra_traces_fn(ctx)
         traces += t2
-    t3, _ = vlib.drive_gen(ctx, "cdoc", 1, extra=["-probes", 1], tag="probes")
+    t3, _ = vlib.drive_gen(ctx, "cdoc", 1, extra=["-probes", mode], tag="probes")
     traces += t3
     n, bad = vlib.judge(ctx, "Trace_Doc", traces, cfg_text=tcfg, timeout=3400)
     vlib.report_bad(ctx, bad, sig, desc(mode),
